@@ -371,7 +371,8 @@ theorem checkTx_decide (p : ChainParams) (t : Tx) (h : TxRange t) :
     simp [hv, ho, this, reject]
   have hvin : t.vin ≠ [] := fun hh => hv (by simp [hh])
   have hvout : t.vout ≠ [] := fun hh => ho (by simp [hh])
-  simp only [hv, ho, if_false, serTx_strip t h]
+  simp only [hv, ho, if_false, MerkleProofs.ctorValid_of_range t h, Bool.not_true, Bool.false_eq_true,
+    serTx_strip t h]
   by_cases hsz : (Spec.Wire.txLegacy t).length > maxBlockSize
   · have : ¬ Spec.BlockCheck.ValidTx p t := fun hh => by have := hh.2.2.1; omega
     simp [hsz, this, reject]
@@ -768,6 +769,10 @@ theorem checkBlockHeader_decide (p : ChainParams) (hlim : p.powLimit < 2 ^ 256)
       simp only [if_true, serHeader_ok h hh, checkPoW]
       cases hc : Model.checkPoW p.powLimit (hash256 (Spec.Wire.header h)) h.nBits with
       | errPow => simp only [reject]
+      | pyStructError =>
+        have h32 : 32 ≤ (hash256 (Spec.Wire.header h)).length := by rw [hH]
+        rcases C17.pow_reject_is_validation p.powLimit _ h32 h.nBits with h' | h' <;>
+          simp [hc] at h'
       | ok =>
         have hv := hpow.mp hc
         have ht : (h.nTime : Int) > now + 7200 := by
